@@ -39,7 +39,7 @@ type RWMutex struct {
 
 func (m *RWMutex) Lock() {
 	if e := vsched.Cur(); e != nil {
-		e.Lock(&m.ref)
+		e.LockRW(&m.ref)
 		return
 	}
 	m.m.Lock()
@@ -98,15 +98,68 @@ func (w *WaitGroup) Wait() {
 	w.w.Wait()
 }
 
-// Types the scheduler does not model are passed through unchanged so that a changed tree which
-// starts using them still builds (their blocking behaviour is then invisible to the explorer; a
-// hang is caught by the watchdog as an internal error, never as a verdict).
+// Once: the real sync.Once would block a second caller on its internal mutex while the first one is
+// parked inside f - invisible to the scheduler. This one is built from the shim Mutex.
+type Once struct {
+	m    Mutex
+	done bool
+}
+
+func (o *Once) Do(f func()) {
+	o.m.Lock()
+	defer o.m.Unlock()
+	if !o.done {
+		defer func() { o.done = true }()
+		f()
+	}
+}
+
+// Cond: Wait releases L, parks until signalled (modelled), re-acquires L.
+type Cond struct {
+	L    Locker
+	real *sync.Cond
+	m    sync.Mutex
+	ref  vsched.ObjRef
+}
+
+func NewCond(l Locker) *Cond { return &Cond{L: l} }
+
+func (c *Cond) realCond() *sync.Cond {
+	c.m.Lock()
+	defer c.m.Unlock()
+	if c.real == nil {
+		c.real = sync.NewCond(c.L)
+	}
+	return c.real
+}
+
+func (c *Cond) Wait() {
+	if e := vsched.Cur(); e != nil {
+		e.CondWait(&c.ref, c.L.Unlock, c.L.Lock)
+		return
+	}
+	c.realCond().Wait()
+}
+
+func (c *Cond) Signal() {
+	if e := vsched.Cur(); e != nil {
+		e.CondSignal(&c.ref, false)
+		return
+	}
+	c.realCond().Signal()
+}
+
+func (c *Cond) Broadcast() {
+	if e := vsched.Cur(); e != nil {
+		e.CondSignal(&c.ref, true)
+		return
+	}
+	c.realCond().Broadcast()
+}
+
+// Types the scheduler does not need to model are passed through unchanged.
 type (
-	Once   = sync.Once
 	Map    = sync.Map
 	Pool   = sync.Pool
-	Cond   = sync.Cond
 	Locker = sync.Locker
 )
-
-func NewCond(l Locker) *Cond { return sync.NewCond(l) }
